@@ -11,6 +11,7 @@ Directives (comment lines starting with `//@`, arguments shell-quoted):
   //@ extract NAME from FILE anchor "LIT" until "LIT2"    whole lines from the anchor line up to,
                                                           excluding, the first later line containing LIT2
   //@ extract NAME from FILE anchor "LIT" lines N         N whole lines starting at the anchor line
+  (any extract form may end with  after "LIT0" : the anchor is then the first match below the unique line containing LIT0)
   //@ rewrite NAME "FROM" => "TO"                         literal replacement, must apply >= 1 time
   //@ rewrite? NAME "FROM" => "TO"                        same, but may apply 0 times (recorded)
   //@ drop NAME from "LIT_A" through "LIT_B" as "TEXT"    replaces whole lines [line containing LIT_A ..
@@ -111,6 +112,13 @@ def build(template_path, repo=None):
             src = open(p).read()
             lines = src.splitlines(keepends=True)
             hits = [i for i, l in enumerate(lines) if lit in l]
+            if "after" in t[6:]:
+                # `... after "LIT0"`: the anchor is the first match below the (unique) line containing LIT0
+                lit0 = t[t.index("after", 6) + 1]
+                h0 = [i for i, l in enumerate(lines) if lit0 in l]
+                if len(h0) != 1:
+                    raise stage.LostAnchor("%s: after-anchor %r matches %d times in %s" % (u.name, lit0, len(h0), fil))
+                hits = [i for i in hits if i > h0[0]][:1]
             if len(hits) != 1:
                 raise stage.LostAnchor("%s: anchor %r matches %d times in %s" % (u.name, lit, len(hits), fil))
             a = hits[0]
